@@ -1,47 +1,66 @@
 """C03 — a cache hit returns what recomputation would return."""
+import json
+import os
+
 from kv import Case, xn, xb, xl, xlist, xbool, xparse, xtext
 import pipe
 
 ID = "C03"
 MODULE = "C03"
-IMPORTS = "Bytes RustInt Range CacheControl Cache CacheProofs"
+IMPORTS = "Bytes RustInt Range CacheControl Cache CacheProofs Fixture CacheX CacheXProofs CacheXWitness"
 PROFILES = ("dev",)
-THEOREMS = [
-    ("cache_transparent", None),
-    ("cache_hit_same_class", None),
-    ("cache_transparent_from_empty", None),
-]
-RULE = ("histories of requests/clears against kvarn::handle_cache in process: (a) host with response cache vs. the Coq cache model "
-        "(correspondence: status, vary, last-modified presence, decoded body, identity body, handler invocation log per request), "
-        "(b) host without response cache vs. the model run with cache off, (c) oracle: every reply of the caching host equals the reply of the "
-        "cache-less model on status, body and identity body. Universe: paths {/, /a, /a/, /a., /ab, /a/b, /q, /nohandler} x queries "
-        "{none, b, x=1, x=2} x methods {GET, HEAD, POST, OPTIONS, PUT} x Accept-Encoding/Range headers x all assignments of "
-        "{None, QueryMatters, Full} to the handlers, with/without the default extensions (uri expansion of '/', 'dir/', 'name.'). "
-        "distinct_nontrivial = distinct (history, model outcome) pairs containing at least one cache hit (empty handler log on a 200)")
+MAX_NOT_EXECUTED = 0
+_PINS = json.load(open(os.path.join(os.path.dirname(os.path.abspath(__file__)), "pins", "C03.json")))
+THEOREMS = [(n, _PINS[n]) for n in ("cache_transparent", "cache_hit_same_class", "cache_transparent_from_empty",
+                                    "override_poisons_refuted", "stream_vary_refuted", "qm_variant_refuted")]
+RULE = ("histories of requests/clears/waits against kvarn::handle_cache in process (harness/src/c04x.rs): (a) host with response cache vs. the Coq cache "
+        "model Model/CacheX.v (component pipex.run; correspondence: status, vary / x-h / last-modified presence, decoded body, identity body, stream, "
+        "handler invocation log per request), (b) host without response cache vs. the model run with cache off, (c) oracle real-vs-model: every reply "
+        "of the caching host equals the reply of the cache-less model on status, reported headers, body, identity body and stream, (d) oracle "
+        "real-vs-real (component pipex.pair): the same history on two real hosts built from one configuration, with and without response cache, "
+        "compared on status, EVERY response header except last-modified, decoded body, identity body, stream — the model predicts 'no difference' by "
+        "theorem cache_transparent; this part also carries what the model abstracts (406 from accept-encoding: identity;q=0, Range, content-type / "
+        "content-encoding). Universe: paths {/, /a, /a/, /a., /ab, /a/b, /q, /v, /w, /nohandler, unsafe spellings} x queries {none, b, x=1, x=2} x "
+        "methods {GET, HEAD, POST, OPTIONS, PUT} x Accept-Encoding / Range / Origin / vary-relevant headers x all assignments of {None, QueryMatters, "
+        "Full} to the handlers (QueryMatters + vary included) x vary rules x switch handlers whose variants differ in status / preference / "
+        "cache-control / stream x status filter {default, cache-all} x override Prime (custom /./int, default CORS denial) x waits across a 2 s "
+        "lifetime, with/without the default extensions (uri expansion of '/', 'dir/', 'name.'; clears of the unexpanded names). "
+        "distinct_nontrivial = distinct (history, model outcome) pairs containing at least one cache hit")
 ASSUMPTIONS = [
-    "handlers honour their cache contract (theorem hypotheses: response is a function of method class, path, (query if QueryMatters), vary tuple; "
-    "query-matters-ness is uniform per path; error responses are not cacheable); fixture handlers satisfy it by construction",
+    "handlers honour their cache contract (theorem hypotheses: response is a function of method class, path of the URI that selects the handler "
+    "(the internal route when a Prime overrode the URI), (query if QueryMatters), vary tuple; error responses are not cacheable); fixture handlers "
+    "satisfy it by construction. The earlier extra hypothesis 'query-matters-ness is uniform per path' is gone: it was needed only because of the "
+    "defect witnessed by qm_variant_refuted, now repaired",
     "If-Modified-Since excluded here (C04 covers it): a cache-less server never answers 304",
     "moka is modelled as a finite map with read-your-writes; capacity (1024 entries) is never reached in a run",
-    "sequential histories (one request at a time); the race between expiry and handle_vary_missing's second lookup is not modelled",
-    "content negotiation is abstracted (C06): bodies are compared after decoding content-encoding with standard decoders",
+    "sequential histories (one request at a time); the race between expiry and handle_vary_missing's second lookup is not modelled (C05)",
+    "content negotiation is abstracted in the model (C06): bodies are compared after decoding content-encoding with standard decoders; the "
+    "real-vs-real oracle compares the content-encoding / content-type headers and the 406 answers directly",
+    "timed histories: a scenario in which a request started or ended more than 450 ms late is run again and then reported as not executed",
 ]
-TRUSTED = ["modelled: src/lib.rs handle_cache + handle_cache_helpers (get_cache, maybe_cache, handle_vary_missing), src/comprash.rs UriKey/PathQuery/"
-           "MokaCache::{get_cache_item,insert,insert_cache_item}/ServerCachePreference::cache, src/host.rs clear_page/status filter, "
-           "extensions.rs uri_redirect prime; handlers/vary rules are the fixture menu (harness/src/c00pipe.rs = Model/Fixture.v)"]
-LEVEL_TEXT = ("Coq theorem cache_transparent: for every history of requests, clears and waits, under the handler contract, every reply of the "
-              "caching server equals the reply of the cache-less server (status, headers, body sent, identity body), by an inductive invariant on "
-              "the cache (each stored variant equals recomputation for every request that can select it); plus hit_same_class (an entry is only "
-              "served to a request of the same path / query / method class / variant). Tied to /repo by a differential run of the real "
-              "kvarn::handle_cache against the extracted model on generated histories, for hosts with and without the response cache.")
-LEVEL_NOTE = ("Trusted: Coq kernel; extraction (sample re-checked in-kernel); hand transcription of handle_cache into Model/Cache.v validated by the "
+TRUSTED = ["modelled (Model/CacheX.v): src/lib.rs handle_cache + handle_cache_helpers (get_response's key, get_cache, maybe_cache, handle_vary_missing), "
+           "src/comprash.rs UriKey/PathQuery/MokaCache::{get_cache_item,insert,insert_cache_item}/ServerCachePreference::cache, src/host.rs "
+           "clear_page/status filter, extensions.rs uri_redirect prime, the default CORS denial route; handlers/vary rules/override Prime are the "
+           "fixture menu (harness/src/c00pipe.rs + c04x.rs = Model/Fixture.v + CacheX.v)"]
+LEVEL_TEXT = ("Coq theorem cache_transparent over the full cache model (streams, body sizes, the host's status filter, override URIs of Prime extensions, "
+              "vary variants with admission): for every history of requests, clears and waits, under the handler contract, every reply of the caching "
+              "server equals the reply of the cache-less server (status, headers, body sent with its size, identity body, stream), by an inductive "
+              "invariant on the cache (each stored variant equals recomputation for every request that can select it); plus cache_hit_same_class (an "
+              "entry is only served to a request of the same path / query / method class / variant). Two defects of the code before its repair are "
+              "proved as witnesses on the faithful old model (override_poisons_refuted: an internal route's answer stored under the page's key; "
+              "qm_variant_refuted: a QueryMatters variant joined a path-keyed entry and was served for every query; stream_vary_refuted). Tied to the repo worktree by a differential run of the real kvarn::handle_cache against the extracted model on "
+              "generated histories, for hosts with and without the response cache, and by the real-vs-real comparison of the two hosts.")
+LEVEL_NOTE = ("Trusted: Coq kernel; extraction (sample re-checked in-kernel); hand transcription of handle_cache into Model/CacheX.v validated by the "
               "differential run; moka as a finite map; sequential histories. No axioms.")
-TECHNIQUE = "Coq proof (simulation by inductive invariant over all histories) + differential correspondence on kvarn::handle_cache"
+TECHNIQUE = "Coq proof (simulation by inductive invariant over all histories) + differential correspondence on kvarn::handle_cache + real-vs-real differential"
 
-PATHS = [b"/", b"/a", b"/a/", b"/a.", b"/ab", b"/a/b", b"/q", b"/nohandler", b"/a/index.html", b"/a.html", b"/index.html"]
+PATHS = [b"/", b"/a", b"/a/", b"/a.", b"/ab", b"/a/b", b"/q", b"/nohandler", b"/a/index.html", b"/a.html", b"/index.html", b"/v", b"/w"]
+UNSAFE = [b"/a/./b", b"/./a", b"/a/../a", b"//a", b"/a./x", b"/./int"]
 QUERIES = [None, b"b", b"x=1", b"x=2"]
 METHODS = [b"GET", b"GET", b"GET", b"HEAD", b"POST", b"OPTIONS", b"PUT"]
-REPORT = [b"vary", b"?last-modified", b"x-h"]
+REPORT = [b"vary", b"x-h"]       # last-modified is the cache's own stamp: not a representation header, not pinned
+VVALS = [b"a", b"b", b"c"]
+SLACK = 450
 
 
 def handlers(rng, prefs):
@@ -55,22 +74,60 @@ def handlers(rng, prefs):
     return hs
 
 
-def rand_request(rng, focus=None):
-    p = rng.choice(focus) if focus and rng.random() < 0.8 else rng.choice(PATHS)
+def vary_pages(rng, timed):
+    """/v: switch handler selected by x-v (vary rule x-v, lower-casing = identity on the generated values): its variants differ in status,
+    preference, cache-control, stream; /w: echo of the transformed tuple, QueryMatters or Full. All pure functions of the request."""
+    uniform = rng.random() < 0.5
+    qm0 = rng.random() < 0.3
+    behs = []
+    for v in VVALS:
+        st = rng.choice([200, 200, 200, 404, 400, 500, 301, 101])
+        # the variants of one page may differ in query-matters-ness (QueryMatters variants echo path?query, the others are static)
+        qm = qm0 if uniform else rng.random() < 0.4
+        sp = 1 if qm else rng.choice([0, 2, 2, 2, 3])
+        hdr = rng.choice([[], [], [(b"cache-control", b"max-age=2")] if timed else [(b"cache-control", b"max-age=1000")], [(b"kvarn-cache-control", b"none")],
+                          [(b"cache-control", b"no-store")]])
+        stream = rng.choice([0, 0, 0, 0, 1, 2])
+        h = pipe.H(b"/v", kind=1 if qm else 0, status=st, body=b"V" + v + b":", headers=hdr + [(b"x-h", b"v" + v)], spref=sp, cpref=0, compress=rng.random() < 0.5)
+        behs.append((v, h, 0, stream))
+    xhs = [pipe.XH(b"/v", b"x-v", behs)]
+    tup = [(b"x-w", rng.choice([0, 1, 2, 3]), b"dw")] + ([(b"x-v", rng.choice([0, 1]), b"dv")] if rng.random() < 0.5 else [])
+    hs = [pipe.H(b"/w", kind=3, body=b"W", spref=rng.choice([1, 2]), tuple_=tup, cpref=0)]
+    rules = [pipe.vary_rule(b"/v", [(b"x-v", 0, b"a")]), pipe.vary_rule(b"/w", tup)]
+    if rng.random() < 0.3:
+        rules = rules[:1]          # /w without its rule would break the contract: drop the handler too
+        hs = []
+    return hs, xhs, rules
+
+
+def rand_request(rng, focus=None, origin=False, ovhdr=False, ae406=False):
+    p = rng.choice(focus) if focus and rng.random() < 0.8 else rng.choice(PATHS + (UNSAFE if rng.random() < 0.3 else []))
     q = rng.choice(QUERIES)
     t = p + (b"?" + q if q is not None else b"")
     hdrs = []
     if rng.random() < 0.3:
-        hdrs.append((b"accept-encoding", rng.choice([b"gzip", b"br", b"zstd, gzip", b"identity", b"gzip;q=0.5, br"])))
+        hdrs.append((b"accept-encoding", rng.choice([b"gzip", b"br", b"zstd, gzip", b"identity", b"gzip;q=0.5, br"] +
+                                                    ([b"identity;q=0", b"gzip;q=0, identity;q=0", b"br, identity;q=0"] if ae406 else []))))
     if rng.random() < 0.15:
         hdrs.append((b"range", rng.choice([b"bytes=0-3", b"bytes=5-2", b"bytes=2-", b"bytes=100-200"])))
+    if p == b"/v" or rng.random() < 0.1:
+        if rng.random() < 0.9:
+            hdrs.append((b"x-v", rng.choice(VVALS)))
+    if p == b"/w" or rng.random() < 0.1:
+        if rng.random() < 0.8:
+            hdrs.append((b"x-w", rng.choice([b"a", b"B", b"zz", b"abc", b""])))
+    if origin and rng.random() < 0.3:
+        hdrs.append((b"origin", rng.choice([b"https://evil.example", b"http://localhost", b"null", b"localhost", b"http://localhost:80"])))
+    if ovhdr and rng.random() < 0.3:
+        hdrs.append((b"x-int", b"1"))
     return pipe.req(t, method=rng.choice(METHODS), addr=rng.randrange(1, 4), headers=hdrs)
 
 
-def history(rng, n):
+def history(rng, n, timed=False, **kw):
     ops = []
-    focus = rng.sample(PATHS, 2)
-    for _ in range(n):
+    focus = rng.sample(PATHS, 2) + ([b"/v"] if rng.random() < 0.5 else [])
+    waits = [500, 2700] if timed else []
+    for i in range(n):
         r = rng.random()
         if r < 0.07:
             p = rng.choice(PATHS)
@@ -79,16 +136,26 @@ def history(rng, n):
         elif r < 0.10:
             ops.append(pipe.clear_all())
         else:
-            ops.append(rand_request(rng, focus))
+            ops.append(rand_request(rng, focus, **kw))
+        if waits and i in (n // 3, 2 * n // 3):
+            ops.append(pipe.wait(waits.pop(0)))
     return ops
 
 
-def mk_cases(rng, hs, ops, default_ext, kind):
+def mk_cases(rng, hs, ops, default_ext, kind, xhs=(), vary=(), pair=True, run=True, **cfgkw):
     out = []
-    for cache in (True, False):
-        c = pipe.cfg(cache=cache, default_ext=default_ext, handlers=hs, report=[xb(r) for r in REPORT], disable_ims=False)
-        out.append(Case("pipe.run", pipe.scenario(c, ops), "pipe.run_nocache" if cache else None,
-                        {"kind": kind + ("/cache" if cache else "/nocache")}))
+    kw = dict(default_ext=default_ext, handlers=hs, report=[xb(r) for r in REPORT], disable_ims=False, **cfgkw)
+    if xhs:
+        kw["xhandlers"] = list(xhs)
+    if vary:
+        kw["vary"] = list(vary)
+    if run:
+        for cache in (True, False):
+            c = pipe.cfg(cache=cache, **kw)
+            out.append(Case("pipex.run", pipe.scenario(c, ops), "pipex.run_nocache" if cache else None,
+                            {"kind": kind + ("/cache" if cache else "/nocache")}))
+    if pair:
+        out.append(Case("pipex.pair", pipe.scenario(pipe.cfg(cache=True, **kw), ops), None, {"kind": kind + "/pair"}))
     return out
 
 
@@ -101,19 +168,65 @@ def generate(rng, tier):
         [pipe.req(b"/a"), pipe.req(b"/a", method=b"OPTIONS"), pipe.req(b"/a", method=b"POST"), pipe.req(b"/a", method=b"HEAD"), pipe.req(b"/a?x=1")],
         [pipe.req(b"/a", method=b"OPTIONS"), pipe.req(b"/a"), pipe.req(b"/a")],
         [pipe.req(b"/a/"), pipe.req(b"/a/index.html"), pipe.req(b"/a."), pipe.req(b"/a.html"), pipe.req(b"/"), pipe.req(b"/index.html")],
+        [pipe.req(b"/a/"), pipe.clear_page(b"/a/"), pipe.req(b"/a/"), pipe.req(b"/a/index.html"), pipe.clear_page(b"/a."), pipe.req(b"/a.html")],
         [pipe.req(b"/ab"), pipe.req(b"/a?b"), pipe.req(b"/a"), pipe.req(b"/ab")],
         [pipe.req(b"/a", headers=[(b"range", b"bytes=5-2")]), pipe.req(b"/a"), pipe.req(b"/a", headers=[(b"range", b"bytes=5-2")])],
+        [pipe.req(b"/a/./b"), pipe.req(b"/a"), pipe.req(b"//a"), pipe.req(b"/a")],
         [pipe.req(b"/nohandler"), pipe.req(b"/nohandler"), pipe.req(b"/nohandler?x=1", method=b"POST")],
     ]
     for ops in corpus:
         for de in (False, True):
             cases += mk_cases(rng, hs, ops, de, "corpus")
-    nhist = 400 if tier == "quick" else 6000
+    # corpus: the repaired defects — override key (custom Prime, default CORS denial with a permissive status filter), stream + vary
+    page = pipe.H(b"/p", kind=0, body=b"page", spref=2, cpref=0)
+    internal = pipe.H(b"/./int", kind=0, body=b"internal", spref=2, cpref=0)
+    X = [(b"x-int", b"1")]
+    cases += mk_cases(rng, [page, internal], [pipe.req(b"/p", headers=X), pipe.req(b"/p"), pipe.req(b"/p"), pipe.req(b"/p", headers=X), pipe.req(b"/./int")],
+                      False, "corpus/override", ovprime=[xb(b"x-int"), xb(b"/./int")])
+    O = [(b"origin", b"https://evil.example")]
+    for sf in (0, 1):
+        cases += mk_cases(rng, [page], [pipe.req(b"/p", headers=O), pipe.req(b"/p"), pipe.req(b"/p", headers=[(b"origin", b"http://localhost")]),
+                                        pipe.req(b"/p", headers=O), pipe.req(b"/p")], True, "corpus/cors", sfilter=sf)
+    A = pipe.H(b"/v", kind=0, body=b"a", spref=2, cpref=0)
+    for st in (1, 2):
+        xh = pipe.XH(b"/v", b"x-v", [(b"a", A, 0, 0), (b"b", pipe.H(b"/v", kind=0, body=b"b", spref=2, cpref=0), 0, st)])
+        cases += mk_cases(rng, [], [pipe.req(b"/v", headers=[(b"x-v", b"a")]), pipe.req(b"/v", headers=[(b"x-v", b"b")]), pipe.req(b"/v", headers=[(b"x-v", b"b")])],
+                          False, "corpus/stream-vary", xhs=[xh], vary=[pipe.vary_rule(b"/v", [(b"x-v", 0, b"a")])])
+    Aq = pipe.H(b"/v", kind=0, body=b"static-a", spref=2, cpref=0)
+    Bq = pipe.H(b"/v", kind=1, body=b"b:", spref=1, cpref=0)
+    xh = pipe.XH(b"/v", b"x-v", [(b"a", Aq, 0, 0), (b"b", Bq, 0, 0)])
+    Ra, Rb = [(b"x-v", b"a")], [(b"x-v", b"b")]
+    cases += mk_cases(rng, [], [pipe.req(b"/v?x=1", headers=Ra), pipe.req(b"/v?x=1", headers=Rb), pipe.req(b"/v?x=2", headers=Rb), pipe.req(b"/v?x=2", headers=Ra),
+                                pipe.req(b"/v?x=1", headers=Rb)], False, "corpus/qm-variant", xhs=[xh], vary=[pipe.vary_rule(b"/v", [(b"x-v", 0, b"a")])])
+    nhist = 230 if tier == "quick" else 5000
     for i in range(nhist):
         prefs = [rng.choice([0, 1, 2]) for _ in range(3)]
         hs = handlers(rng, prefs)
-        ops = history(rng, rng.randrange(3, 14))
-        cases += mk_cases(rng, hs, ops, rng.random() < 0.5, "random")
+        de = rng.random() < 0.5
+        ov = (not de) and rng.random() < 0.25
+        vh, xhs, rules = vary_pages(rng, False) if rng.random() < 0.6 else ([], [], [])
+        kw = {}
+        if ov:
+            # contract: the internal route's answer is a function of ITS path (it is cached under /./int), so it must not echo the request URI
+            hs = hs + [pipe.H(b"/./int", kind=rng.choice([0, 4]), body=b"internal:", spref=rng.choice([0, 1, 2]), cpref=0)]
+            kw["ovprime"] = [xb(b"x-int"), xb(b"/./int")]
+        if rng.random() < 0.15:
+            kw["sfilter"] = 1
+        ops = history(rng, rng.randrange(3, 14), origin=de, ovhdr=ov)
+        cases += mk_cases(rng, hs + vh, ops, de, "random", xhs=xhs, vary=rules, pair=(i % 2 == 0), **kw)
+    # real-vs-real only: what the model abstracts (406 answers, every header)
+    for i in range(60 if tier == "quick" else 1500):
+        hs = handlers(rng, [rng.choice([0, 1, 2]) for _ in range(3)])
+        vh, xhs, rules = vary_pages(rng, False)
+        de = rng.random() < 0.5
+        cases += mk_cases(rng, hs + vh, history(rng, rng.randrange(4, 14), origin=de, ae406=True), de, "negotiation", xhs=xhs, vary=rules, run=False)
+    # waits across a 2 s lifetime (entries expire in the middle of the history)
+    for i in range(6 if tier == "quick" else 40):
+        hs = [pipe.H(p, kind=0 if sp != 1 else 1, body=b"t:" + p + b":", spref=sp, headers=[(b"cache-control", b"max-age=2")] if rng.random() < 0.7 else [], cpref=0)
+              for p, sp in ((b"/a", rng.choice([1, 2])), (b"/q", 1), (b"/ab", 2))]
+        vh, xhs, rules = vary_pages(rng, True)
+        ops = history(rng, rng.randrange(8, 13), timed=True)
+        cases += mk_cases(rng, hs + vh, ops, False, "timed", xhs=xhs, vary=rules, pair=False, slack=SLACK)
     return cases
 
 
@@ -121,8 +234,12 @@ def _replies(out):
     return xparse(out)[1]
 
 
+def _hdrs(h):
+    return [p for p in h[1] if p[1][0] != ("B", b"last-modified")]
+
+
 def spec_ok(c, impl, spec):
-    """reply of the caching host == reply of the cache-less model on status, decoded body, identity body."""
+    """reply of the caching host == reply of the cache-less model on status, reported headers, decoded body, identity body, stream."""
     try:
         a, b = _replies(impl), _replies(spec)
     except Exception:
@@ -130,10 +247,43 @@ def spec_ok(c, impl, spec):
     if len(a) != len(b):
         return False
     for x, y in zip(a, b):
-        if x[0] == "L" and len(x[1]) == 6:
-            if len(y[1]) != 6 or x[1][0] != y[1][0] or x[1][2] != y[1][2] or x[1][4] != y[1][4]:
+        if x[0] == "L" and len(x[1]) == 7:
+            if len(y[1]) != 7 or x[1][0] != y[1][0] or _hdrs(x[1][1]) != _hdrs(y[1][1]) or x[1][2] != y[1][2] or x[1][3] != y[1][3] \
+                    or x[1][4] != y[1][4] or x[1][6] != y[1][6]:
                 return False
     return True
+
+
+def extra_oracle(c, impl):
+    if c.comp != "pipex.pair":
+        return None
+    if impl != "(L)":
+        try:
+            d = xparse(impl)[1]
+            import kv
+            return "the host with response cache and the host without answer differently at op(s) " + "; ".join(
+                "%s [%s]: cache %s / no cache %s" % (kv.pretty(x[1][0]), kv.pretty(x[1][1]), kv.pretty(x[1][2], 300), kv.pretty(x[1][3], 300)) for x in d[:3])
+        except Exception:
+            return "unparsable output of the real-vs-real comparison: " + impl[:200]
+    return None
+
+
+def out_of_domain(c, impl):
+    return impl.startswith("(L (N 96)") or impl.startswith("(L (N 93)")
+
+
+def harness_trouble(cases, impl, model):
+    timed = [c for c in cases if "timed" in c.meta.get("kind", "")]
+    bad = [c for c in timed if (impl.get(c.id) or "").startswith("(L (N 93)")]
+    if timed and len(bad) * 3 > len(timed):
+        return "%d of %d timed histories could not be run within their timing slack (machine too loaded): %s" % (
+            len(bad), len(timed), ", ".join("%s[%s]" % (c.id, c.meta.get("kind")) for c in bad[:12]))
+    return None
+
+
+def extra_coverage(cases, impl, model, spec):
+    bad = [c for c in cases if (impl.get(c.id) or "").startswith("(L (N 93)")]
+    return {"timing_not_executed": len(bad), "timing_not_executed_ids": [{"id": c.id, "kind": c.meta.get("kind")} for c in bad][:30]}
 
 
 def signature(c, m):
@@ -142,7 +292,7 @@ def signature(c, m):
         return None
     try:
         for x in _replies(m):
-            if x[0] == "L" and len(x[1]) == 6 and x[1][0][1] == 200 and x[1][5][1] == []:
+            if x[0] == "L" and len(x[1]) == 7 and x[1][5][1] == [] and x[1][0][1] not in (400, 403, 404, 416):
                 return "hit"
     except Exception:
         pass
